@@ -556,6 +556,8 @@ func checkC10Tables(c *Ctx, r *Report) {
 		r.add("C10.c", "guardedby", fi.Key+":accept-iff-supported", "a verb is accepted only if it is in routeSupportedHttpVerbs", []string{fi.Key}, sites, viol)
 	}
 	checkVerbTestedAsWritten(c, r, "C10.c")
+	// which parameters are exempt from linking and from the primitive-only rule: exactly Go's context.Context
+	checkIsContextExact(c, r, "C10.b")
 	if fi := need(c, r, "C10.c", "definitions.IsValidRouteHttpVerb"); fi != nil {
 		a := newAtoms()
 		for _, ex := range exitsOf(fi.SSA) {
